@@ -56,5 +56,56 @@ verus! {
                 }
             }
 //@end
+
+// ---- C13 ----
+//@include contracts/stage_specs2.rs
+// D18: `v.iter().min_by(|a, b| a.0.cmp(b.0))` (std contract: the minimum w.r.t. the comparator; None iff empty)
+#[verifier::external_body]
+fn min_by_key_id<'a>(v: &'a HashMap<KeyId, LinkMetadata>) -> (r: Option<(&'a KeyId, &'a LinkMetadata)>)
+    ensures r is None <==> v@.len() == 0,
+            r is Some ==> is_min_kid(v@.dom(), *(r->0).0) && v@[*(r->0).0] == *(r->0).1,
+            r is Some ==> *(r->0).0 == min_kid(v@.dom()),   // consequence of the clause above by lemma_min_unique (verified below)
+{ unimplemented!() }
+proof fn lemma_min_unique(s: Set<KeyId>, k: KeyId)   // [C13]
+    requires is_min_kid(s, k)
+    ensures min_kid(s) == k
+{
+    fact_kid_order();
+    let m = min_kid(s);
+    assert(is_min_kid(s, m));
+    assert(kid_le(m, k) && kid_le(k, m));
+}
+
+//@extract src/verifylib.rs fn:reduce_chain_links props=C13,C14
+//@subst D15 /link_files\.iter\(\)\.try_for_each\(\|\(k, v\)\| -> Result<\(\)> \{/ => for (k, v) in link_files.iter() {
+//@subst D15 /Ok\(\(\)\)\s*\}\)\?;/ => }
+//@subst D18 /v\.iter\(\)\s*\.min_by\(\|a, b\| a\.0\.cmp\(b\.0\)\)/ => min_by_key_id(v)
+//@subst G1 /\.map\(\|\(_, link\)\| link\)/ => .map(|p: (&KeyId, &LinkMetadata)| -> (r: &LinkMetadata) ensures r == p.1 { let (_, link) = p; link })
+//@subst G2 /let mut res = HashMap::new\(\);/ => let mut res: HashMap<String, LinkMetadata> = HashMap::new();
+//@contract ret=r
+//@include contracts/reduce_chain_links.rs
+//@before /let mut res/
+    proof { fact_string_ext(); fact_keyid_key_model(); fact_kid_order(); }
+//@loop 1 iter=it
+        invariant
+            forall|a: String, b: String| #![trigger a@, b@] a@ == b@ ==> a == b,
+            vstd::std_specs::hash::obeys_key_model::<String>(),
+            vstd::std_specs::hash::obeys_key_model::<KeyId>(),
+            forall|a: KeyId, b: KeyId| #![trigger kid_le(a, b), kid_le(b, a)] kid_le(a, b) && kid_le(b, a) ==> a == b,
+            forall|i: int| 0 <= i < it.seq().len() ==> link_files@.contains_key(*(#[trigger] it.seq()[i]).0) && link_files@[*it.seq()[i].0] == *it.seq()[i].1,
+            forall|name: String| link_files@.contains_key(name) ==> exists|i: int| 0 <= i < it.seq().len() && *(#[trigger] it.seq()[i]).0 == name,
+            forall|i: int| 0 <= i < it.index() ==> res@.contains_key(*(#[trigger] it.seq()[i]).0),
+            forall|name: String| #[trigger] res@.contains_key(name) ==> link_files@.contains_key(name) && link_files@[name]@.len() >= 1
+                && is_min_kid(link_files@[name]@.dom(), min_kid(link_files@[name]@.dom()))
+                && res@[name] == link_files@[name]@[min_kid(link_files@[name]@.dom())],
+//@after_loop 1
+    proof {
+        assert(res@.dom() =~= link_files@.dom());
+        assert forall|name: String| #[trigger] link_files@.contains_key(name) implies link_files@[name]@.values().contains(res@[name]) by {
+            let k = min_kid(link_files@[name]@.dom());
+            assert(link_files@[name]@.dom().contains(k));
+        }
+    }
+//@end
 } // verus!
 fn main() {}
